@@ -120,8 +120,13 @@ Definition stable (c : gctx) (P : list sv -> nat -> gx -> Prop) : Prop :=
   (forall a b m g m' g', P a m g -> chg (g_own c) a b -> cle m g m' g' -> P b m' g') /\
   (forall a b m g m' g', P a m g -> keepK c a b -> cle m g m' g' -> P b m' g').
 
+(* the frame on top of sc has scope id cur and offset base; the ids along the scope chain do not exceed cur
+   (a frame's outer frames belong to lexically enclosing scopes, which were created earlier) *)
+Definition frameOK (sc : list frame) (cur base : nat) : Prop :=
+  (forall k, index_of sc (cur, k) = Some (base + k)) /\ (forall y a, index_of sc y = Some a -> fst y <= cur).
+
 Definition Impl (q : query) : Prop :=
-  forall sc cur base, (forall k, index_of sc (cur, k) = Some (base + k)) ->
+  forall sc cur base, frameOK sc cur base ->
   forall ce pc nv sn cq nv' sn', comp q ce cur pc nv sn = Some (cq, nv', sn') -> code_at pc cq ->
   forall rho v st fk vs n n0 o ko g (K : nat -> Prop) (P : list sv -> nat -> gx -> Prop),
     envOK sc ce rho vs n0 (base + nv) -> n0 <= n -> base + nv' <= ko -> ko <= o -> o <= length vs ->
@@ -276,7 +281,7 @@ Proof.
   - (* array *) destruct (array_fold q); inversion Hc; subst; lia.
   - (* foreach *) destruct e as [e|]; simpl in *; dcomp; inversion Hc; subst; clear Hc.
     + apply IHe in Ec2. lia. + lia.
-  - (* binop *)
+  - (* binop *) destruct (Nat.ltb cur sn); [|discriminate].
     match type of Hc with context [comp b ce ?c ?p ?n ?s] =>
       destruct (comp b ce c p n s) as [[[cb nb] s1]|] eqn:Eb; [|discriminate] end. cbv iota beta in Hc.
     match type of Hc with context [comp a ce ?c ?p ?n ?s] =>
